@@ -219,7 +219,7 @@ package vm
 // Clone: Copy behind the TransientStorage interface.
 //@ func (t transientStorage) Clone() TransientStorage
 //@   modifies nothing
-//@   ensures[C03.ts_clone] typeof(result) == type(transientStorage) && payload(result) != nil && fresh(payload(result))
+//@   ensures[C03.ts_clone] typeof(result) == type(transientStorage) && payload(result) != nil && fresh(payload(result)) && allocated(payload(result))
 //@   ensures[C03.ts_clone_fresh] forall a common.Address :: (a in unbox(result, type(transientStorage))) ==> (unbox(result, type(transientStorage))[a] != nil && fresh(unbox(result, type(transientStorage))[a]))
 //@   ensures[C03.ts_clone_equal] forall a common.Address, k common.Hash :: (a in unbox(result, type(transientStorage))) == (a in t) && (k in unbox(result, type(transientStorage))[a]) == (k in t[a]) && unbox(result, type(transientStorage))[a][k] == t[a][k]
 //@   ensures[C03.ts_clone_ok] tsOk(unbox(result, type(transientStorage)))
@@ -230,7 +230,7 @@ package vm
 //@ func (t TransientStorage) Clone() TransientStorage
 //@   requires typeof(t) == type(transientStorage)
 //@   modifies nothing
-//@   ensures typeof(result) == type(transientStorage) && payload(result) != nil && fresh(payload(result))
+//@   ensures typeof(result) == type(transientStorage) && payload(result) != nil && fresh(payload(result)) && allocated(payload(result))
 //@   ensures forall a common.Address :: (a in unbox(result, type(transientStorage))) ==> (unbox(result, type(transientStorage))[a] != nil && fresh(unbox(result, type(transientStorage))[a]))
 //@   ensures forall a common.Address, k common.Hash :: (a in unbox(result, type(transientStorage))) == (a in unbox(t, type(transientStorage))) && (k in unbox(result, type(transientStorage))[a]) == (k in unbox(t, type(transientStorage))[a]) && unbox(result, type(transientStorage))[a][k] == unbox(t, type(transientStorage))[a][k]
 //@   ensures tsOk(unbox(result, type(transientStorage)))
@@ -265,7 +265,7 @@ package vm
 //@   ensures[C03.rec_layer] lyrParent(layer(result.snapshotCtx)) == layer(workingCtx) && lyrDepth(layer(result.snapshotCtx)) == lyrDepth(layer(workingCtx)) + 1 && viewEq(layer(result.snapshotCtx), layer(workingCtx)) && hdr(result.snapshotCtx) == hdr(workingCtx)
 //@   ensures[C03.rec_write_func] isWriteCache(result.writeFunc) && wcChild(result.writeFunc) == layer(result.snapshotCtx) && wcParent(result.writeFunc) == layer(workingCtx)
 //@   ensures[C03.rec_equal] trackerEq(result.touched, stateDb.touched) && trackerEq(result.selfDestructed, stateDb.selfDestructed) && alEq(result.accessList, stateDb.accessList) && logsEq(result.logs, stateDb.logs) && result.refund == stateDb.refund && typeof(result.transientStorage) == type(transientStorage) && tsEq(unbox(result.transientStorage, type(transientStorage)), unbox(stateDb.transientStorage, type(transientStorage)))
-//@   ensures[C03.rec_fresh] result.touched != nil && fresh(result.touched) && result.selfDestructed != nil && fresh(result.selfDestructed) && result.touched != result.selfDestructed && result.accessList != nil && fresh(result.accessList) && fresh(result.accessList.elements) && (forall a common.Address :: result.accessList.elements[a] == nil || fresh(result.accessList.elements[a])) && (stateDb.logs == nil ? result.logs == nil : fresh(base(result.logs))) && fresh(payload(result.transientStorage)) && (forall a common.Address :: (a in unbox(result.transientStorage, type(transientStorage))) ==> fresh(unbox(result.transientStorage, type(transientStorage))[a]))
+//@   ensures[C03.rec_fresh] result.touched != nil && fresh(result.touched) && result.selfDestructed != nil && fresh(result.selfDestructed) && result.touched != result.selfDestructed && result.accessList != nil && fresh(result.accessList) && fresh(result.accessList.elements) && (forall a common.Address :: result.accessList.elements[a] == nil || fresh(result.accessList.elements[a])) && (stateDb.logs == nil ? result.logs == nil : fresh(base(result.logs))) && fresh(payload(result.transientStorage)) && allocated(payload(result.transientStorage)) && (forall a common.Address :: (a in unbox(result.transientStorage, type(transientStorage))) ==> fresh(unbox(result.transientStorage, type(transientStorage))[a]))
 //@   ensures alOk(result.accessList) && tsOk(unbox(result.transientStorage, type(transientStorage)))
 //@   panics never
 
@@ -281,15 +281,17 @@ package vm
 //@ ghost macro sdbLive(d *cStateDb) bool = d.touched != nil && d.selfDestructed != nil && d.touched != d.selfDestructed && alOk(d.accessList) && typeof(d.transientStorage) == type(transientStorage) && allocated(payload(d.transientStorage)) && tsOk(unbox(d.transientStorage, type(transientStorage)))
 // (4) separation: no map / backing array reachable from the live components is reachable from a snapshot record
 //     (the live ones are the only ones mutators write to; records are only read, by RevertToSnapshot)
-//@ ghost macro recSepTrackers(d *cStateDb, r RtStateDbSnapshot) bool = r.touched != d.touched && r.touched != d.selfDestructed && r.selfDestructed != d.touched && r.selfDestructed != d.selfDestructed
-//@ ghost macro recSepAl(d *cStateDb, r RtStateDbSnapshot) bool = r.accessList != nil && r.accessList != d.accessList && r.accessList.elements != d.accessList.elements && (forall a common.Address, b common.Address :: d.accessList.elements[a] != nil ==> d.accessList.elements[a] != r.accessList.elements[b])
-//@ ghost macro recSepLogs(d *cStateDb, r RtStateDbSnapshot) bool = r.logs == nil || base(r.logs) != base(d.logs)
-//@ ghost macro recSepTs(d *cStateDb, r RtStateDbSnapshot) bool = typeof(r.transientStorage) == type(transientStorage) && payload(r.transientStorage) != payload(d.transientStorage) && (forall a common.Address, b common.Address :: (a in unbox(d.transientStorage, type(transientStorage))) ==> unbox(d.transientStorage, type(transientStorage))[a] != unbox(r.transientStorage, type(transientStorage))[b])
-//@ ghost macro sdbSepTrackers(d *cStateDb) bool = forall i int :: (0 <= i && i < len(d.snapshots)) ==> recSepTrackers(d, d.snapshots[i])
-//@ ghost macro sdbSepAl(d *cStateDb) bool = forall i int :: (0 <= i && i < len(d.snapshots)) ==> recSepAl(d, d.snapshots[i])
-//@ ghost macro sdbSepLogs(d *cStateDb) bool = forall i int :: (0 <= i && i < len(d.snapshots)) ==> recSepLogs(d, d.snapshots[i])
-//@ ghost macro sdbSepTs(d *cStateDb) bool = forall i int :: (0 <= i && i < len(d.snapshots)) ==> recSepTs(d, d.snapshots[i])
-//@ ghost macro sdbSep(d *cStateDb) bool = sdbSepTrackers(d) && sdbSepAl(d) && sdbSepLogs(d) && sdbSepTs(d)
+//@ ghost macro recSepTouched(d *cStateDb, i int) bool = d.snapshots[i].touched != d.touched && d.snapshots[i].touched != d.selfDestructed
+//@ ghost macro recSepSelfDestructed(d *cStateDb, i int) bool = d.snapshots[i].selfDestructed != d.touched && d.snapshots[i].selfDestructed != d.selfDestructed
+//@ ghost macro recSepAl(d *cStateDb, i int) bool = d.snapshots[i].accessList != nil && d.snapshots[i].accessList != d.accessList && d.snapshots[i].accessList.elements != d.accessList.elements && (forall a common.Address, b common.Address :: d.accessList.elements[a] != nil ==> d.accessList.elements[a] != d.snapshots[i].accessList.elements[b])
+//@ ghost macro recSepLogs(d *cStateDb, i int) bool = d.snapshots[i].logs == nil || base(d.snapshots[i].logs) != base(d.logs)
+//@ ghost macro recSepTs(d *cStateDb, i int) bool = typeof(d.snapshots[i].transientStorage) == type(transientStorage) && allocated(payload(d.snapshots[i].transientStorage)) && payload(d.snapshots[i].transientStorage) != payload(d.transientStorage) && (forall a common.Address, b common.Address :: (a in unbox(d.transientStorage, type(transientStorage))) ==> unbox(d.transientStorage, type(transientStorage))[a] != unbox(d.snapshots[i].transientStorage, type(transientStorage))[b])
+//@ ghost macro sdbSepTouched(d *cStateDb) bool = forall i int :: (0 <= i && i < len(d.snapshots)) ==> recSepTouched(d, i)
+//@ ghost macro sdbSepSelfDestructed(d *cStateDb) bool = forall i int :: (0 <= i && i < len(d.snapshots)) ==> recSepSelfDestructed(d, i)
+//@ ghost macro sdbSepAl(d *cStateDb) bool = forall i int :: (0 <= i && i < len(d.snapshots)) ==> recSepAl(d, i)
+//@ ghost macro sdbSepLogs(d *cStateDb) bool = forall i int :: (0 <= i && i < len(d.snapshots)) ==> recSepLogs(d, i)
+//@ ghost macro sdbSepTs(d *cStateDb) bool = forall i int :: (0 <= i && i < len(d.snapshots)) ==> recSepTs(d, i)
+//@ ghost macro sdbSep(d *cStateDb) bool = sdbSepTouched(d) && sdbSepSelfDestructed(d) && sdbSepAl(d) && sdbSepLogs(d) && sdbSepTs(d)
 //@ ghost macro sdbInv(d *cStateDb) bool = sdbStack(d) && sdbLayers(d) && sdbLive(d) && sdbSep(d)
 
 // Snapshot: pushes a record holding deep copies of the live components and continues in a child layer with the same view.
@@ -308,8 +310,37 @@ package vm
 //@   ensures[C03.snap_inv_layers_parent] sdbLayersParent(d)
 //@   ensures[C03.snap_inv_layers_write] sdbLayersWrite(d)
 //@   ensures[C03.snap_inv_live] sdbLive(d)
-//@   ensures[C03.snap_inv_sep_trackers] sdbSepTrackers(d)
+//@   ensures[C03.snap_inv_sep_touched] sdbSepTouched(d)
+//@   ensures[C03.snap_inv_sep_self_destructed] sdbSepSelfDestructed(d)
 //@   ensures[C03.snap_inv_sep_al] sdbSepAl(d)
 //@   ensures[C03.snap_inv_sep_logs] sdbSepLogs(d)
 //@   ensures[C03.snap_inv_sep_ts] sdbSepTs(d)
 //@   panics never
+
+// RevertToSnapshot(id): the records after id+1 are dropped, the world view becomes the view of record id's layer (through a
+// NEW child layer of it), every live component becomes a fresh deep copy of what record id+1 saved (the record itself is
+// kept, untouched, so the same id can be reverted to again), the refund counter is restored.
+//@ func (d *cStateDb) RevertToSnapshot(id int)
+//@   requires sdbInv(d)
+//@   modifies d.currentCtx, d.touched, d.refund, d.selfDestructed, d.accessList, d.logs, d.transientStorage, d.snapshots, contents(d.snapshots)
+//@   ensures[C03.revert_len] len(d.snapshots) == id + 2
+//@   ensures[C03.revert_older_records] forall i int :: (0 <= i && i <= id) ==> d.snapshots[i] == old(d.snapshots[i])
+//@   ensures[C03.revert_record_kept] d.snapshots[id + 1].id == id && d.snapshots[id + 1].touched == old(d.snapshots[id + 1].touched) && d.snapshots[id + 1].selfDestructed == old(d.snapshots[id + 1].selfDestructed) && d.snapshots[id + 1].accessList == old(d.snapshots[id + 1].accessList) && d.snapshots[id + 1].logs == old(d.snapshots[id + 1].logs) && d.snapshots[id + 1].transientStorage == old(d.snapshots[id + 1].transientStorage) && d.snapshots[id + 1].refund == old(d.snapshots[id + 1].refund)
+//@   ensures[C03.revert_view] d.currentCtx == d.snapshots[id + 1].snapshotCtx && viewEq(layer(d.currentCtx), old(layer(d.snapshots[id].snapshotCtx))) && lyrParent(layer(d.currentCtx)) == old(layer(d.snapshots[id].snapshotCtx))
+//@   ensures[C03.revert_touched] trackerEq(d.touched, d.snapshots[id + 1].touched) && trackerEq(d.selfDestructed, d.snapshots[id + 1].selfDestructed)
+//@   ensures[C03.revert_access_list] alEq(d.accessList, d.snapshots[id + 1].accessList)
+//@   ensures[C03.revert_logs] logsEq(d.logs, d.snapshots[id + 1].logs)
+//@   ensures[C03.revert_refund] d.refund == d.snapshots[id + 1].refund
+//@   ensures[C03.revert_transient] tsEq(unbox(d.transientStorage, type(transientStorage)), unbox(d.snapshots[id + 1].transientStorage, type(transientStorage)))
+//@   ensures[C03.revert_fresh] fresh(d.touched) && fresh(d.selfDestructed) && fresh(d.accessList) && fresh(d.accessList.elements) && fresh(payload(d.transientStorage)) && (d.logs == nil || fresh(base(d.logs)))
+//@   ensures[C03.revert_inv_stack] sdbStack(d)
+//@   ensures[C03.revert_inv_layers_depth] sdbLayersDepth(d)
+//@   ensures[C03.revert_inv_layers_parent] sdbLayersParent(d)
+//@   ensures[C03.revert_inv_layers_write] sdbLayersWrite(d)
+//@   ensures[C03.revert_inv_live] sdbLive(d)
+//@   ensures[C03.revert_inv_sep_touched] sdbSepTouched(d)
+//@   ensures[C03.revert_inv_sep_self_destructed] sdbSepSelfDestructed(d)
+//@   ensures[C03.revert_inv_sep_al] sdbSepAl(d)
+//@   ensures[C03.revert_inv_sep_logs] sdbSepLogs(d)
+//@   ensures[C03.revert_inv_sep_ts] sdbSepTs(d)
+//@   panics[C03.revert_panics] iff id < 0 || id + 1 >= len(d.snapshots)
